@@ -15,6 +15,12 @@ CONSTANTS
   MaxDev = 2
   MaxOps = 6
   StaleClaim = FALSE
+  Flds = {"none"}
+  Sks = {"no"}
+  Ups = {FALSE}
+  RegMeta = 0
+  ClaimKinds = {"claim"}
+  Bug = "none"
   EmitMod = 4
 CONSTRAINT Bound
 VIEW View
